@@ -596,7 +596,7 @@ def cursor_check(chk, run, cr, cases):
     chk.log('injected/subrange done')
     # (b) every call sequence up to depth D over (member x wrapper), extended while the implementation accepts it
     depth = 3 if quick else 4
-    budget = 2500 if quick else 30000
+    budget = 2500 if quick else 20000
     small = small[:12 if quick else 40]
     frontier = [(c, m, v, A, [[]]) for (c, m, v, rng) in small for A in [alphabet(rng, m['level'], v['root'])]]
     for d in range(depth):
@@ -713,7 +713,7 @@ def run(chk):
     if chk.tier == 'thorough' and proved:
         chk.leanchecker(MODULE)
     quick = chk.tier == 'quick'
-    n = 14 if quick else 60
+    n = 14 if quick else 50
     # the cursor classes fork on no feature macro besides constexpr-ness: two compilers x old/new standards
     configs = W.configs_for('quick') if quick else [('g++', 'c++11'), ('g++', 'c++20'), ('clang++-14', 'c++14'),
                                                      ('clang++-14', 'c++17')]
